@@ -1038,7 +1038,7 @@ func oracle(r *hk.Run, p *program, o *observation) {
 		mask := p.unreplayedUploads()
 		for k := 1; k < n; k++ {
 			if ck := canonWire(stripCookies(o.Wires[k]), nil); ck != first {
-				sg := "identical:" + diffField(o.Wires[0], o.Wires[k])
+				sg := "identical:" + diffField(stripCookies(o.Wires[0]), stripCookies(o.Wires[k]))
 				if len(mask) > 0 && canonWireNoLen(stripCookies(o.Wires[k]), mask) == canonWireNoLen(stripCookies(o.Wires[0]), mask) {
 					// the only difference is in file parts fed from the caller's own shared plain reader
 					r.Count("accepted.caller-reader-drained")
